@@ -136,12 +136,13 @@ impl XDiscreteDistribution {
         }
     }
 
-    fn quantile(&self, x: f64) -> LazyBigint {
-        match self {
+    /// None if the distribution has no finite quantile at x (e.g. x == 1 with an unbounded support)
+    fn quantile(&self, x: f64) -> Option<LazyBigint> {
+        Some(match self {
             Self::Binomial(i) => inverse_cdf(i, x).into(),
             Self::Custom(items) => {
                 let idx = items.partition_point(|(_, p)| p <= &x);
-                items[idx].0.clone()
+                items.get(idx).or(items.last())?.0.clone()
             }
             Self::Hypergeometric(i) => inverse_cdf(i, x).into(),
             Self::NegativeBinomial(i) => {
@@ -149,8 +150,7 @@ impl XDiscreteDistribution {
                     let p = i.p();
                     (((1.0 - x) / (1.0 - p)).ln() / (1.0 - p).ln())
                         .floor()
-                        .to_i64()
-                        .unwrap()
+                        .to_i64()?
                         .into()
                 } else {
                     inverse_cdf(i, x).into()
@@ -159,10 +159,9 @@ impl XDiscreteDistribution {
             Self::Poisson(i) => inverse_cdf(i, x).into(),
             Self::Uniform(i) => (x * ((i.max() - i.min() + 1) as f64) + (i.min() - 1) as f64)
                 .floor()
-                .to_i64()
-                .unwrap()
+                .to_i64()?
                 .into(),
-        }
+        })
     }
 
     fn sample(&self, n: usize, rng: &mut impl RngCore) -> Vec<LazyBigint> {
@@ -499,7 +498,8 @@ pub(crate) fn add_discdist_quantile<W, R, T>(
             if *f1 > 1.0 || *f1 < 0.0 {
                 return xerr(ManagedXError::new("quantile must be between 0 and 1", rt)?);
             }
-            Ok(ManagedXValue::new(XValue::Int(d0.quantile(*f1)), rt)?.into())
+            let Some(q) = d0.quantile(*f1) else { return xerr(ManagedXError::new("quantile is not finite", rt)?); };
+            Ok(ManagedXValue::new(XValue::Int(q), rt)?.into())
         }),
     )
 }
